@@ -235,10 +235,23 @@ class Driver:
                 out.append(s[i]); i += 1
         return "".join(out)
 
+    TIMEOUT = 300          # seconds per call; an answer "TIMEOUT" means undecided (the driver is restarted)
+    timeouts = 0           # class-wide count, copied into the evidence
+
     def call(self, op, *args):
+        import select
         line = "\t".join([op] + [self.esc(a) for a in args])
         self.p.stdin.write(line + "\n")
         self.p.stdin.flush()
+        ready, _, _ = select.select([self.p.stdout], [], [], self.TIMEOUT)
+        if not ready:
+            Driver.timeouts += 1
+            try:
+                self.p.kill()
+            except Exception:
+                pass
+            self.__init__()
+            return "TIMEOUT"
         out = self.p.stdout.readline()
         if not out:
             raise RuntimeError("model driver died on: " + line[:200])
@@ -375,6 +388,8 @@ class Report:
             tail = " no-failing-input-found" if replay.get("no_failing_input") else ""
             print(f"VIOLATION property={self.prop} replay={path}{tail}")
         cov = dict(self.cov)
+        if Driver.timeouts:
+            cov["model_calls_undecided_after_timeout"] = Driver.timeouts
         if obligations is not None and (discharged or 0) < 1:
             # proof obligations not discharged on this run: report them under other keys (the proof-level keys
             # of the schema are reserved for runs in which the theorems check)
